@@ -564,7 +564,7 @@ fn fail(c: &DirCase, m: String) -> Failure {
 }
 
 pub fn run(tier: Tier, seed: u64) -> i32 {
-    let rule = "directory regions (fixed FAT12 root and a two-cluster chained directory) filled with generated 32-byte slots, cluster fields forced valid: block A = every order/last-flag/checksum pattern of runs of 1..3 long-name slots over 29 interesting order bytes (incl. index 0 with only flag / undefined bits) x follower (short entry, deleted slot, label, end marker, second run, directory); block B = every value of each of the 32 bytes of each slot of a valid two-slot run and of its short entry; block C = random slot soup (valid runs with one damaged byte, 19-21 slot runs of 245..262 units with and without terminator, BMP-only or with surrogate pairs / lone surrogates, valid runs whose first on-disk slot got another order byte (deleted mark, 0x05, index off by one ...), runs numbered 21..31 with padding-only upper slots, garbage long-name slots incl. attr 0x1F/0x2F/0x3F, arbitrary short slots, deleted, labels, end markers); oracle = iteration and every accessor + Debug terminate without panic within a device-call budget, names <= 255 units, and the listing (entries, short names, long names) equals refdec's backwards run parser under at least one reading of the undefined bits; block D = the order patterns of 1..3 slots and the slot soup through the build with the fixed long-name buffer, listing compared with the default build's (no crash, same entries); non-trivial = region with a long-name slot whose run is broken; distinct by hash of the region";
+    let rule = "directory regions (fixed FAT12 root and a two-cluster chained directory) filled with generated 32-byte slots, cluster fields forced valid: block A = every order/last-flag/checksum pattern of runs of 1..3 long-name slots over 29 interesting order bytes (incl. index 0 with only flag / undefined bits) x follower (short entry, deleted slot, label, end marker, second run, directory); block B = every value of each of the 32 bytes of each slot of a valid two-slot run and of its short entry, and every checksum value of the run x lead byte 0x05 / 0xE5 / 0x85 / a letter of the short entry; block C = random slot soup (valid runs with one damaged byte, 19-21 slot runs of 245..262 units with and without terminator, BMP-only or with surrogate pairs / lone surrogates, valid runs whose first on-disk slot got another order byte (deleted mark, 0x05, index off by one ...), runs numbered 21..31 with padding-only upper slots, garbage long-name slots incl. attr 0x1F/0x2F/0x3F, arbitrary short slots, deleted, labels, end markers); oracle = iteration and every accessor + Debug terminate without panic within a device-call budget, names <= 255 units, and the listing (entries, short names, long names) equals refdec's backwards run parser under at least one reading of the undefined bits; block D = the order patterns of 1..3 slots and the slot soup through the build with the fixed long-name buffer, listing compared with the default build's (no crash, same entries); non-trivial = region with a long-name slot whose run is broken; distinct by hash of the region";
     let mut rep = Report::new("C17", tier, seed, "exploration", rule);
     rep.assume("undefined bits (attr bits 4-5 of long-name slots, order-byte bits 5 and 7) may be read either way; a run whose order/checksum are valid but whose NUL/0xFFFF layout is malformed may be returned or dropped");
     rep.assume("blocks A-C drive the default (alloc) build in-process against the independent parser; block D feeds the same families to the fixed-buffer build and the default build through featdrv and compares their listings");
@@ -631,6 +631,30 @@ pub fn run(tier: Tier, seed: u64) -> i32 {
         });
         bb.exhaustive = true;
         rep.add(bb);
+    }
+    // block B2: the lead byte 0x05 (the stored form of a name that begins with the character 0xE5) x every checksum
+    // value carried by the whole run: exactly the checksum of the eleven bytes AS STORED ties the run to the entry
+    if !rep.failed() {
+        let name: Vec<u16> = "a long name of 20 un".encode_utf16().collect();
+        let leads = [0x05u8, b'B', 0xE5, 0x85];
+        let mut b2 = run::run_indexed("lead_byte_05_x_every_run_checksum", leads.len() as u64 * 256 * 2, |i, blk| {
+            let chained = i % 2 == 1;
+            let i = i / 2;
+            let chk = (i % 256) as u8;
+            let mut short = *b"BYTEFLIPTXT";
+            short[0] = leads[(i / 256) as usize];
+            let mut slots = run_for_name(&name, &short);
+            for s in slots.iter_mut() {
+                s[13] = chk;
+            }
+            slots.push(short_slot(&short, 0x20));
+            let c = DirCase { chained, slots };
+            let out = eval(b, &c);
+            blk.record(&out, || serde_json::to_value(&c).unwrap());
+            out.violation.map(|m| fail(&c, m))
+        });
+        b2.exhaustive = true;
+        rep.add(b2);
     }
     // block C: soup
     if !rep.failed() {
